@@ -6,6 +6,7 @@ import (
 	"go/constant"
 	"go/token"
 	"go/types"
+	"sort"
 	"golang.org/x/tools/go/ssa"
 	"strings"
 
@@ -509,6 +510,7 @@ func checkC11(p *core.Program, r *core.Report) {
 	r.Rule("O11.1", "writer and reader section sequences coincide (fields, order, width, endianness)")
 	r.Rule("O11.2", "every I/O error in the writers and the reader propagates on every path")
 	r.Rule("O11.4", "the reader refuses a file only on read/decode failures (or defensive tests on their results), never on a condition over the decoded depth / batch size")
+	r.Rule("O11.6", "loading a keys file takes no exclusive advisory lock on it (a second reader of a valid file must not be refused)")
 	r.Rule("O11.5", "a loader that opens a file lets the decoder read the file itself or a buffer holding the whole stream, not a buffer sized before reading (Stat)")
 	r.Rule("O11.3", "CLI: persisting commands write the right system with a ProvingSystem writer to the --output file; reading commands use the loader")
 	r.Trusted = append(r.Trusted, "gnark WriteTo/WriteRawTo output is accepted by UnsafeReadFrom/ReadFrom in both encodings", "encoding/binary")
@@ -662,6 +664,7 @@ func checkC11(p *core.Program, r *core.Report) {
 	// O11.4: the reader adds no precondition on the stored dimensions
 	checkReaderRefusals(p, r, append(append([]flow.FuncUnit{}, readers...), readerParts...))
 	checkLoaderStreams(p, r)
+	checkLoaderLocks(p, r)
 	r.Floor("file loader decode sites", 1)
 	// reader: section objects constructed for BN254
 	for _, rd := range append(append([]flow.FuncUnit{}, readers...), readerParts...) {
@@ -869,59 +872,91 @@ func checkC11(p *core.Program, r *core.Report) {
 		if c.Action.Node == nil || !(c.Name == "setup" || c.Name == "import-setup" || c.Name == "convert-to-raw") {
 			continue
 		}
-		info := c.Pkg.TypesInfo
-		g := flow.NewGraph(c.Action)
-		var wlocs []flow.Loc
-		ast.Inspect(c.Action.Node, func(n ast.Node) bool {
-			call, ok := n.(*ast.CallExpr)
-			if !ok {
-				return true
+		// on SSA: a return counts as a success return unless its error is certainly non-nil (a literal nil, but also
+		// `return copyKeysFile(in, out)` — the result of a helper that may well be nil)
+		act := actionSSA(p, c)
+		if act == nil || len(act.Blocks) == 0 {
+			continue
+		}
+		containsWriter := map[*ssa.Function]bool{}
+		var hasWriter func(f *ssa.Function, depth int) bool
+		hasWriter = func(f *ssa.Function, depth int) bool {
+			if v, ok := containsWriter[f]; ok {
+				return v
 			}
-			fn, _ := flow.Callee(info, call).(*types.Func)
-			if fn == nil {
-				return true
+			containsWriter[f] = false
+			if depth > 4 {
+				return false
 			}
-			isWriter := writerObjs[fn.Origin()]
-			if !isWriter && fn.Pkg() == c.Pkg.Types {
-				// a helper of package main that contains a writer call (saveSystem(system, path))
-				if u, ok := indexFuncs(p).decls[fn]; ok {
-					ast.Inspect(u.Node, func(m ast.Node) bool {
-						if c2, ok := m.(*ast.CallExpr); ok {
-							if f2, _ := flow.Callee(u.Pkg.TypesInfo, c2).(*types.Func); f2 != nil && writerObjs[f2.Origin()] {
-								isWriter = true
-							}
-						}
+			for _, b := range f.Blocks {
+				for _, in := range b.Instrs {
+					ci, ok := in.(ssa.CallInstruction)
+					if !ok {
+						continue
+					}
+					sc := ci.Common().StaticCallee()
+					if sc == nil {
+						continue
+					}
+					if o, _ := sc.Object().(*types.Func); o != nil && writerObjs[o.Origin()] {
+						containsWriter[f] = true
 						return true
-					})
+					}
+					if len(sc.Blocks) > 0 && core.InRepo(pkgPathOf(sc)) && sc.Pkg == act.Pkg && hasWriter(sc, depth+1) {
+						containsWriter[f] = true
+						return true
+					}
 				}
 			}
-			if isWriter {
-				if l, ok := g.Locate(call); ok {
-					wlocs = append(wlocs, l)
+			return false
+		}
+		type wsite struct {
+			b *ssa.BasicBlock
+		}
+		var wsites []wsite
+		for _, b := range act.Blocks {
+			for _, in := range b.Instrs {
+				ci, ok := in.(ssa.CallInstruction)
+				if !ok {
+					continue
+				}
+				sc := ci.Common().StaticCallee()
+				if sc == nil {
+					continue
+				}
+				isWriter := false
+				if o, _ := sc.Object().(*types.Func); o != nil && writerObjs[o.Origin()] {
+					isWriter = true
+				} else if len(sc.Blocks) > 0 && sc.Pkg == act.Pkg && hasWriter(sc, 0) {
+					isWriter = true // a helper of package main that contains a writer call (saveSystem(system, path))
+				}
+				if isWriter {
+					wsites = append(wsites, wsite{b})
 				}
 			}
-			return true
-		})
-		if len(wlocs) == 0 {
+		}
+		if len(wsites) == 0 {
 			continue // reported by the floor / the per-site rule
 		}
 		var bad []string
 		nSucc := 0
-		for _, rt := range g.Returns() {
-			if !returnIsNilError(info, rt.Ret) {
+		for _, b := range act.Blocks {
+			ret, ok := b.Instrs[len(b.Instrs)-1].(*ssa.Return)
+			if !ok || provablyErrorReturn(ret) || b == act.Recover {
 				continue
 			}
 			nSucc++
 			dom := false
-			for _, wl := range wlocs {
-				if g.LocDominates(wl, rt.Loc) {
+			for _, w := range wsites {
+				if w.b == b || w.b.Dominates(b) {
 					dom = true
 				}
 			}
 			if !dom {
-				bad = append(bad, "success return at "+p.Pos(rt.Ret.Pos())+" is reachable without writing the system")
+				bad = append(bad, "the return at "+p.Pos(ret.Pos())+" can report success and is reachable without writing the system with a ProvingSystem writer")
 			}
 		}
+		sort.Strings(bad)
 		r.Check(len(bad) == 0, "O11.3", "main.cmd:"+c.Name+": every success path writes the system", p.Pos(c.Lit.Pos()), fmt.Sprintf("%d success return(s), each dominated by the writer call", nSucc), strings.Join(bad, "; "))
 	}
 	r.Count("CLI write sites", nWrite)
@@ -1288,4 +1323,53 @@ func seamCallee(p *core.Program, com *ssa.CallCommon) *ssa.Function {
 		}
 	}
 	return nil
+}
+
+// checkLoaderLocks (O11.6): loading a keys file does not take an exclusive advisory lock on it. A reader that insists on
+// LOCK_EX (non-blocking) refuses a perfectly valid file whenever anything else — another prover instance starting from the
+// same volume, a second load in the same process — has it open for reading: the file does not "read back".
+func checkLoaderLocks(p *core.Program, r *core.Report) {
+	ix := indexFuncs(p)
+	li := findLoaders(p, ix)
+	var bad []string
+	n := 0
+	for _, u := range li.chain {
+		fd, ok := u.Node.(*ast.FuncDecl)
+		if !ok {
+			continue
+		}
+		obj, _ := u.Pkg.TypesInfo.Defs[fd.Name].(*types.Func)
+		fn := p.SSA.FuncValue(obj)
+		if fn == nil {
+			continue
+		}
+		n++
+		for _, b := range fn.Blocks {
+			for _, in := range b.Instrs {
+				c, ok := in.(ssa.CallInstruction)
+				if !ok {
+					continue
+				}
+				sc := c.Common().StaticCallee()
+				if sc == nil || sc.Pkg == nil {
+					continue
+				}
+				pk := sc.Pkg.Pkg.Path()
+				if !(pk == "syscall" || pk == "golang.org/x/sys/unix") || !(sc.Name() == "Flock" || sc.Name() == "FcntlFlock") {
+					continue
+				}
+				excl := sc.Name() == "FcntlFlock"
+				if len(c.Common().Args) == 2 {
+					if k, ok := c.Common().Args[1].(*ssa.Const); ok && k.Value != nil && k.Int64()&2 != 0 { // LOCK_EX
+						excl = true
+					}
+				}
+				if excl {
+					bad = append(bad, fmt.Sprintf("%s takes an exclusive lock (%s.%s) at %s", u.Name, pk, sc.Name(), p.Pos(c.Pos())))
+				}
+			}
+		}
+	}
+	sort.Strings(bad)
+	r.Check(len(bad) == 0, "O11.6", "load chain: no exclusive lock on the keys file", "-", fmt.Sprintf("%d function(s) of the load chain take no exclusive file lock", n), strings.Join(bad, "; ")+": a valid file is refused whenever another reader has it open")
 }
